@@ -290,3 +290,11 @@ fn field_type_description(
     };
     Ok(type_description_maybe_named)
 }
+
+// Verification hook (compiled only by the Kani compiler, which sets `cfg(kani)`):
+// gives out-of-tree harnesses access to the private `primitive_type_description`.
+#[cfg(kani)]
+mod verif_kani {
+    use super::*;
+    include!(concat!(env!("SCALE_TYPEGEN_VERIF_DIR"), "/kani/description.rs"));
+}
